@@ -316,6 +316,12 @@ func (its *PushPullHandler) pushOperations() errors.OrdaError {
 }
 
 func (its *PushPullHandler) processSubscribeOrCreate(code pushPullCase) errors.OrdaError {
+	if code == caseAllMatchedSubscribed && its.gotOption.HasSubscribeBit() && its.DUID != its.datatypeDoc.DUID {
+		// The client is recorded as a subscriber, yet it still asks to subscribe and does not
+		// know the datatype's DUID: the response to its earlier subscription never reached it.
+		// Subscribe it again instead of treating its pre-subscription operations as pushes.
+		return its.subscribeDatatype()
+	}
 	if its.gotOption.HasSubscribeBit() && its.gotOption.HasCreateBit() {
 		switch code {
 		case caseMatchNothing:
